@@ -25,7 +25,16 @@ func NewRand(stream uint64) *Rand {
 			seed = uint64(n)
 		}
 	}
-	return &Rand{s: seed*0x9E3779B97F4A7C15 + stream*0xBF58476D1CE4E5B9 + 0x1234567}
+	// seed and stream are each passed through the splitmix64 finaliser before they are combined: the
+	// generator's state advances by the golden-ratio constant per draw, so a state that is linear in
+	// the seed would make seed k+1 the sequence of seed k shifted by one draw
+	return &Rand{s: mix64(seed+0x1234567) ^ mix64(stream*0xBF58476D1CE4E5B9+0x9E3779B97F4A7C15)}
+}
+
+func mix64(z uint64) uint64 {
+	z = (z ^ (z >> 30)) * 0xBF58476D1CE4E5B9
+	z = (z ^ (z >> 27)) * 0x94D049BB133111EB
+	return z ^ (z >> 31)
 }
 
 func Seed() int64 {
@@ -50,8 +59,8 @@ func (r *Rand) Intn(n int) int {
 	}
 	return int(r.U64() % uint64(n))
 }
-func (r *Rand) Bool() bool  { return r.U64()&1 == 1 }
-func (r *Rand) Byte() byte  { return byte(r.U64()) }
+func (r *Rand) Bool() bool { return r.U64()&1 == 1 }
+func (r *Rand) Byte() byte { return byte(r.U64()) }
 func (r *Rand) Bytes(n int) []byte {
 	b := make([]byte, n)
 	for i := range b {
